@@ -21,11 +21,13 @@ import (
 	ctrl "sigs.k8s.io/controller-runtime"
 	"sigs.k8s.io/controller-runtime/pkg/client/fake"
 
+	"google.golang.org/protobuf/proto"
 	"google.golang.org/protobuf/types/known/durationpb"
 
 	configv1 "github.com/istio-ecosystem/authservice/config/gen/go/v1"
 	oidcv1 "github.com/istio-ecosystem/authservice/config/gen/go/v1/oidc"
 	"github.com/istio-ecosystem/authservice/internal"
+	inthttp "github.com/istio-ecosystem/authservice/internal/http"
 	"github.com/istio-ecosystem/authservice/internal/k8s"
 	"github.com/istio-ecosystem/authservice/internal/oidc"
 	"github.com/istio-ecosystem/authservice/internal/server"
@@ -171,11 +173,19 @@ func c16Prop(c *sim.Case) {
 	if c16Force {
 		nT = 2
 	}
+	// a quarter of the workloads: every tenant trusts the SAME CA file, each watching it at its own interval, while
+	// the file is being rewritten from the start (first loads of later tenants overlap reload notifications)
+	sharedCAMode := !c16Force && sim.Weighted(c, "shared-ca-mode", 3, 1) == 1
+	if sharedCAMode && nT < 2 {
+		nT = 2
+	}
 	var tenants []*c16Tenant
 	full := &configv1.Config{TriggerRules: []*configv1.TriggerRule{{ExcludedPaths: []*configv1.StringMatch{{MatchType: &configv1.StringMatch_Prefix{Prefix: "/public"}}}}}}
 	ca := sim.NewCA("c16-ca")
 	ca2 := sim.NewCA("c16-ca2")
 	fastCA := false
+	sharedCA := ""
+	var churn []*oidcv1.OIDCConfig
 	stopRedis := func() {}
 	if storeKind == "redis" {
 		stopRedis = sim.RealTimeRedis()
@@ -189,7 +199,10 @@ func c16Prop(c *sim.Case) {
 		t.idp = sim.NewIdP("client-"+t.name, t.secret, time.Now)
 		t.idp.IDTTL = time.Duration(300+sim.Pick(c, "idttl.ms", 1200)) * time.Millisecond
 		defer t.idp.Close()
-		useCAFile := pickBool("ca-file")
+		useCAFile := sharedCAMode || pickBool("ca-file")
+		if c16Force && i == 1 {
+			useCAFile = false // the probe's second tenant reaches its provider through a proxy instead
+		}
 		if useCAFile {
 			t.idp.ServeTLS(ca) // the provider is reached over TLS, trusted through the watched CA file
 		}
@@ -211,6 +224,11 @@ func c16Prop(c *sim.Case) {
 		} else {
 			cfg.AuthorizationUri, cfg.TokenUri = t.idp.AuthURL(), t.idp.TokenURL()
 		}
+		if !useCAFile && pickBool("proxy") {
+			// a forward proxy in front of the provider (plain HTTP: absolute-URI requests, routed by Host)
+			cfg.ProxyUri = "http://proxy.test:3128"
+			c.Class("tenant:proxy")
+		}
 		if t.dynJWKS {
 			cfg.JwksConfig = &oidcv1.OIDCConfig_JwksFetcher{JwksFetcher: &oidcv1.OIDCConfig_JwksFetcherConfig{JwksUri: t.idp.JWKSURL(), PeriodicFetchIntervalSec: 1}}
 		} else {
@@ -221,6 +239,12 @@ func c16Prop(c *sim.Case) {
 		}
 		if useCAFile {
 			t.caFile = filepath.Join(sim.ScratchDir(), fmt.Sprintf("c16-ca-%d-%s-%d.pem", os.Getpid(), t.name, time.Now().UnixNano()))
+			if sharedCA != "" && (sharedCAMode || sim.Bool(c, "ca.shared-file")) {
+				// the same CA file as an earlier tenant, watched at this tenant's own interval
+				t.caFile = sharedCA
+				c.Class("tenant:shared-ca-file")
+			}
+			sharedCA = t.caFile
 			_ = os.WriteFile(t.caFile, ca.PEM, 0o644)
 			cfg.TrustedCaConfig = &oidcv1.OIDCConfig_TrustedCertificateAuthorityFile{TrustedCertificateAuthorityFile: t.caFile}
 			iv := time.Duration(10+sim.Pick(c, "ca.interval", 21)) * time.Millisecond
@@ -235,6 +259,14 @@ func c16Prop(c *sim.Case) {
 			cfg.RedisSessionStoreConfig = &oidcv1.RedisConfig{ServerUri: "redis://" + mr.Addr()}
 		}
 		t.cfg = cfg
+		if sharedCAMode && i == 0 {
+			// copies made before anything runs (the service writes discovered endpoints into its configuration)
+			for k := 0; k < 40; k++ {
+				cp := proto.Clone(cfg).(*oidcv1.OIDCConfig)
+				cp.TrustedCertificateAuthorityRefreshInterval = durationpb.New(time.Duration(2+k) * time.Millisecond)
+				churn = append(churn, cp)
+			}
+		}
 		tenants = append(tenants, t)
 		full.Chains = append(full.Chains, &configv1.FilterChain{Name: t.name,
 			Match:   &configv1.Match{Header: "x-tenant", Criteria: &configv1.Match_Equality{Equality: t.name}},
@@ -269,6 +301,10 @@ func c16Prop(c *sim.Case) {
 			h["cookie"] = cookie
 		}
 		req := sim.Req{Scheme: "https", Host: "app.test", Path: path, Headers: h}
+		if atomic.LoadInt64(&hung) > 0 {
+			// something is stuck already: wind the workload down so that the hang is reported, not waited for again
+			return &sim.Resp{Req: req, Err: fmt.Errorf("not sent: an earlier check hangs")}
+		}
 		n := atomic.AddInt64(&inflight, 1)
 		for {
 			m := atomic.LoadInt64(&maxInflight)
@@ -346,6 +382,7 @@ func c16Prop(c *sim.Case) {
 		}
 	}
 	bgSecret, bgCA, bgKeys := pickBool("bg-secret"), pickBool("bg-ca"), pickBool("bg-keys")
+	bgCA = bgCA || sharedCAMode
 	c.Logf("workload: %d goroutines x %d ops, store=%s, background: secret=%v ca=%v keys=%v", nG, perG, storeKind, bgSecret, bgCA, bgKeys)
 
 	// a few sessions per tenant that SEVERAL goroutines use at the same time (parallel requests of one browser).
@@ -479,6 +516,29 @@ func c16Prop(c *sim.Case) {
 			}
 		}(g)
 	}
+	if sharedCAMode {
+		// many more filters' worth of TLS settings on the same CA file, each with an interval of its own, built the way
+		// every check builds its HTTP client: each first load replaces the file's watcher while reloads are in flight
+		for k := 0; k < 40; k++ {
+			wg.Add(1)
+			go func(k int) {
+				defer wg.Done()
+				<-start
+				time.Sleep(time.Duration(k) * 700 * time.Microsecond)
+				cfg := churn[k]
+				finished := make(chan struct{})
+				go func() {
+					defer close(finished)
+					_, _ = inthttp.NewHTTPClient(cfg, tlsPool, nil)
+				}()
+				select {
+				case <-finished:
+				case <-time.After(45 * time.Second):
+					atomic.AddInt64(&hung, 1)
+				}
+			}(k)
+		}
+	}
 	close(start)
 	wg.Wait()
 	close(done)
@@ -500,7 +560,7 @@ func c16Prop(c *sim.Case) {
 		dump := string(buf[:runtime.Stack(buf, true)])
 		where := "unknown"
 		for _, g := range strings.Split(dump, "\n\n") {
-			if !strings.Contains(g, "filter.Check") && !strings.Contains(g, "ExtAuthZFilter).Check") {
+			if !strings.Contains(g, "filter.Check") && !strings.Contains(g, "ExtAuthZFilter).Check") && !strings.Contains(g, "http.NewHTTPClient") {
 				continue
 			}
 			for _, l := range strings.Split(g, "\n") {
